@@ -207,6 +207,14 @@ class AboutCentreMonitor(taps.Monitor):
         c = np.asarray(obj.centre(), dtype=float)
         d = len(c)
         st = {"c": c.copy(), "d": d}
+        try:
+            # the size of the object: offsets are probed, and errors judged, in its own units (a nanometre-sized shape given in
+            # metres is as good a shape as any)
+            st["ext"] = float(np.max(np.asarray(obj.range(), dtype=float))) if hasattr(obj, "range") else float(max(obj.shape))
+        except Exception:
+            st["ext"] = 5.0
+        if not (st["ext"] > 0 and np.isfinite(st["ext"])):
+            st["ext"] = 5.0
         rest = list(args[1:])
         if self.which == "transform":
             tr = rest[0] if rest else kw.get("transform")
@@ -260,14 +268,14 @@ class AboutCentreMonitor(taps.Monitor):
             ctx.fail("about_centre_builder_raised", cls=cls, mech=self.which + ":" + type(exc).__name__)
             return
         c, d = st["c"], st["d"]
-        v = tx.probe(np.random.default_rng(21), d, 7, box=5.0)
+        v = tx.probe(np.random.default_rng(21), d, 7, box=5.0) * (st["ext"] / 5.0 if st["ext"] < 1e-3 and "plain" not in st else 1.0)
         got = np.asarray(t.apply(np.vstack([c[None], c + v])))
         if "plain" in st:
             exp = c + np.asarray(st["plain"].apply(np.vstack([np.zeros((1, d)), v])))
         else:
             A, b = st["A"], st["b"]
             exp = np.vstack([c[None] + b, c + v @ A.T + b])
-        scale = max(1.0, np.abs(exp).max())
+        scale = max(1.0, np.abs(exp).max()) if not (st["ext"] < 1e-3 and "plain" not in st) else max(float(np.abs(exp).max()), st["ext"])
         e_c = np.abs(got[0] - exp[0]).max()
         e_o = np.abs(got[1:] - exp[1:]).max()
         ctx.err("about_centre", max(e_c, e_o) / scale)
@@ -423,6 +431,10 @@ def w_about_centre(ctx, rng, i):
         d = 2
     else:
         obj = gen.shape(rng, None, d=d)
+        if rng.random() < 0.15:
+            # the same shape in a tiny unit (a nanometre-sized structure given in metres), not centred on the origin
+            obj.points = np.asarray(obj.points, dtype=float) * 10.0 ** rng.uniform(-10.5, -8.5)
+            ctx.bump("shapes_in_a_tiny_unit")
     which = ["transform", "scale", "rotate", "shear"][(i // 5) % 4]
     deg = float(GRID[(i // 20) % len(GRID)]) if i % 2 else float(rng.uniform(-400, 400))
     degrees = bool((i // 3) % 2)
